@@ -156,8 +156,9 @@ def lean_check(pid, tier, log):
 
 
 def _bridge_str(pid):
-    b = load_obligations().get(pid, {}).get("bridge")
-    return " ".join(b) if isinstance(b, list) else (b or "")
+    o = load_obligations().get(pid, {})
+    b = o.get("bridge")
+    return " ".join(list(o.get("extra_modules", [])) + (b if isinstance(b, list) else ([b] if b else [])))
 
 
 def _first_error(out):
